@@ -16,4 +16,17 @@ SvcNext == /\ Len(hist) < MaxOps
               \/ \E n \in Names, x \in Items : AddSvcType(n, x)
               \/ \E n \in Names : Add(n, "ext")
 SvcSpec == Init /\ [][SvcNext]_vars
+(* two connections, one registers, the other tries the same or another name, then they leave in either order *)
+DupNext == \/ hist = <<>> /\ SvcConnect("s1", TRUE)
+           \/ Len(hist) = 1 /\ SvcConnect("s2", TRUE)
+           \/ Len(hist) = 2 /\ \E w \in {"agent", "listener", "exc2"} : SvcReg("s1", w, "x1")
+           \/ Len(hist) = 3 /\ \E w \in {"agent", "listener", "exc2"}, x \in Items : SvcReg("s2", w, x)
+           \/ Len(hist) = 4 /\ \E w \in {"agent", "listener", "exc2"}, x \in Items : SvcReg("s1", w, x) \/ SvcReg("s2", w, x)
+           \/ Len(hist) = 5 /\ \E s \in Svc : SvcDisconnect(s)
+           \/ Len(hist) = 6 /\ \E s \in Svc : SvcDisconnect(s)
+DupSpec == Init /\ [][DupNext]_vars
+(* edit back and forth with requests for both versions in between *)
+EditNext == \/ hist = <<>> /\ Add("n1", "http")
+            \/ Len(hist) \in 1..6 /\ (Edit("n1") \/ \E v \in 0..1 : Serve("n1", v))
+EditSpec == Init /\ [][EditNext]_vars
 =============================================================================
